@@ -101,7 +101,7 @@ def judge(status, skel, recs, verdict, pub="-", compare_words=True):
     for k, r in enumerate(recs.split("|")):
         f = r.split("@")
         if compare_words and len(f) >= 4 and f[2] != f[3]:
-            vw, ww = f[2].split(","), f[3].split(",")
+            vw, ww = ([] if x == "." else x.split(",") for x in (f[2], f[3]))
             # the WASM storage grows on demand (cells of an arm never taken are not there yet), the VM's is sized from the
             # layout: the storages are equal when the common extent is and the rest of the longer one is zero
             k2 = min(len(vw), len(ww))
